@@ -21,6 +21,7 @@ from typing import Any, Dict, List, Optional, Tuple
 from harness import common as C
 
 OPS = ["Tc", "Tw", "Tz", "TL", "Ts", "Tr", "Tf", "q", "Q", "cs", "CS"]      # keyword ids 0..10
+DEV = ["G", "g", "RG", "rg", "K", "k"]                                        # keyword ids 11..16
 ICCBASED, DEVICEN = 100, 101
 
 
@@ -32,7 +33,7 @@ class Names:
         self.lit: Dict[str, int] = {k: i for i, k in enumerate(PREDEFINED_COLORSPACE)}
         self.lit["ICCBased"] = ICCBASED
         self.lit["DeviceN"] = DEVICEN
-        self.kw: Dict[bytes, int] = {k.encode(): i for i, k in enumerate(OPS)}
+        self.kw: Dict[bytes, int] = {k.encode(): i for i, k in enumerate(OPS + DEV)}
 
     def lit_id(self, name: str) -> int:
         if name not in self.lit:
@@ -72,7 +73,7 @@ def gen_page(rng, tag: str, serial: List[int]) -> Dict[str, Any]:
             cs.append((key, "name", "ICCBased"))
     ops: List[Tuple[str, Optional[str], Optional[int]]] = []
     for _ in range(rng.randint(2, 9)):
-        k = rng.choice(["Tc", "Tw", "Tz", "TL", "Ts", "Tr", "Tf", "q", "q", "Q", "Q", "cs", "CS", "cs", "lit", "unknown"])
+        k = rng.choice(["Tc", "Tw", "Tz", "TL", "Ts", "Tr", "Tf", "q", "q", "Q", "Q", "cs", "CS", "cs", "lit", "unknown", "dev", "dev"])
         if k in ("Tc", "Tw", "Tz", "TL", "Ts"):
             ops.append((k, None, rng.randint(-9, 120)))
         elif k == "Tr":
@@ -85,6 +86,8 @@ def gen_page(rng, tag: str, serial: List[int]) -> Dict[str, Any]:
             ops.append((k, rng.choice(["Stray", fresh("N")]), None))
         elif k == "unknown":
             ops.append((k, rng.choice(["zq1", fresh("zq")]), None))
+        elif k == "dev":
+            ops.append((rng.choice(DEV), None, None))
         else:
             ops.append((k, None, None))
     return {"cs": [list(e) for e in cs], "ops": [list(e) for e in ops]}
@@ -103,6 +106,8 @@ def page_content(pg: Dict[str, Any]) -> bytes:
             out.append(b"/%s" % name.encode())
         elif k == "unknown":
             out.append(name.encode())
+        elif k in DEV:
+            out.append(b" ".join([b"0.5"] * [1, 3, 4][DEV.index(k) // 2]) + b" " + k.encode())
         else:
             out.append(k.encode())
     return b" ".join(out) + b"\n"
@@ -140,6 +145,8 @@ def page_tokens(pg: Dict[str, Any], nm: Names) -> List[int]:
     for k, name, v in pg["ops"]:
         if k in OPS:
             toks += [OPS.index(k), nm.lit_id(name) if name is not None else 0, (v + 1000) if v is not None else 0]
+        elif k in DEV:
+            toks += [13, DEV.index(k) // 2, 1 if DEV.index(k) % 2 == 0 else 0]
         elif k == "lit":
             toks += [11, nm.lit_id(name), 0]
         else:
@@ -210,8 +217,8 @@ def run_one(ctx: C.Ctx, hist: List[List[int]], pool: List[Dict[str, Any]], recor
     # resources are built before the tables are marked: what a call adds is what its CONTENT names
     resources = [page_resources(pg) for pg in pool]
     failure: Optional[Tuple[str, Any, Any]] = None
-    held = {k: LIT(k) for k in list(nm.lit)[:6]}
-    held_kw = {k: KWD(k) for k in list(nm.kw)[:4]}
+    held = {k: LIT(k) for k in list(nm.lit)[:6] + list(nm.lit)[-2:]}
+    held_kw = {k: KWD(k) for k in list(nm.kw)[:4] + list(nm.kw)[-1:]}
     # the first calls of every history: each page alone (a fresh interpreter per call)
     hist = [[i] for i in range(len(pool))] + [list(c) for c in hist]
     strict_calls = tuple(c + len(pool) for c in strict_calls)
